@@ -18,7 +18,7 @@ from concurrent.futures import ThreadPoolExecutor
 import numpy as np
 
 from . import core
-from .core import Case, cN, cZ, cbool, clist
+from .core import Case, cD, cN, cZ, cbool, clist
 from . import translate_frames as TF
 from . import translate_effects as TE
 
@@ -391,6 +391,42 @@ def _malformed(vd, rnd, tier):
                         good = fault == "none" and (sh != (sp is not None)) and (sp is None or sp <= 2)
                         add(term, obs, {"entry": "grid_coordinates", "fault": fault, "region": reg, "shape_given": sh, "n_spacing_values": sp},
                             "import verde as vd; vd.grid_coordinates(%r, **%r)" % (regf, kw), not good)
+        # SLIGHTLY inverted regions (exact doubles): there is no tolerance in "W <= E and S <= N"
+        if rep == 0 or tier != "quick":
+            cases_before = len(cases)
+            for E in [5e5, 7.45e6, -60.0, 1.0, 123.456, 1e-3, 0.0, -7.45e6, rnd.uniform(1e3, 1e7), -rnd.uniform(1e-2, 90.0)]:
+                up = float(np.nextafter(E, np.inf))
+                down = float(np.nextafter(E, -np.inf))
+                tiny = {"ulp": up, "rel1e-6": E + abs(E) * 1e-6 if E != 0 else 5e-9, "abs1e-4": E + 1e-4 if abs(E) >= 50 else E + abs(E) * 3e-6 + 5e-9}
+                variants = [("equal", E, E, True), ("ulp-below", down, E, True)] + [(k, v, E, False) for k, v in tiny.items() if v > E]
+                for axis in ("we", "sn"):
+                    for fault, lo, hi, valid in variants:
+                        # lo is the west/south bound, hi the east/north bound; invalid when lo > hi
+                        if axis == "we":
+                            reg = [lo, hi, -3.0, 4.0]
+                        else:
+                            reg = [-3.0, 4.0, lo, hi]
+                        pts = (np.array([reg[0], reg[1], 0.5]), np.array([reg[2], reg[3], 0.5]))
+                        cloud = (np.array([0.0, 1.0, 2.0, 0.5]) + reg[0], np.array([0.0, 2.0, 1.0, 0.5]) + reg[2])
+                        ents5 = {
+                            "check_region": lambda: vd.coordinates.check_region(reg),
+                            "inside": lambda: vd.inside(pts, reg),
+                            "scatter_points": lambda: vd.scatter_points(reg, size=4, random_state=0),
+                            "grid_coordinates": lambda: vd.grid_coordinates(reg, shape=(3, 3)),
+                            "block_split": lambda: vd.block_split(cloud, shape=(2, 2), region=reg),
+                            "BlockReduce.filter": lambda: vd.BlockReduce(np.mean, shape=(2, 2), region=reg).filter(cloud, np.arange(4.0)),
+                            "CheckerBoard.grid": lambda: vd.synthetic.CheckerBoard(region=reg, w_east=1.0, w_north=1.0).grid(shape=(3, 3)),
+                            "CheckerBoard.scatter": lambda: vd.synthetic.CheckerBoard(region=reg, w_east=1.0, w_north=1.0).scatter(size=4),
+                            "Trend.grid": lambda: vd.Trend(1).fit((np.array([0.0, 1.0, 2.0, 0.5]), np.array([0.0, 2.0, 1.0, 0.5])), np.arange(4.0)).grid(region=reg, shape=(3, 3)),
+                        }
+                        for name, f5 in ents5.items():
+                            obs = _ok(f5)
+                            cases.append(Case({"entry": name, "fault": "region-" + fault, "axis": axis, "region": reg, "region_hex": [float(x).hex() for x in reg]},
+                                              {"returned": obs[0], "exception": obs[1]},
+                                              "c20_check_case (CRegionD %s) %s" % (clist([cD(x) for x in reg]), cbool(obs[0])),
+                                              "import verde as vd; r=[float.fromhex(h) for h in %r]; print(r); vd.coordinates.check_region(r)  # entry under test: %s"
+                                              % ([float(x).hex() for x in reg], name),
+                                              "malformed-control" if valid else "malformed-region-ulp", nontrivial=True))
         # both / neither of shape and spacing
         e_, n__ = _arr(rnd, (30,)) + 5, _arr(rnd, (30,)) + 5
         d_ = _arr(rnd, (30,))
